@@ -222,6 +222,36 @@ func guardedByNil(blk *ssa.BasicBlock, v ssa.Value, wantNonNil bool) bool {
 }
 
 // reachesCall: does control flowing out of blk (inclusive) necessarily/possibly reach a call satisfying pred? (possible reachability)
+// blockReachesForward: like blockReaches, but without taking loop back edges (an edge into a block that dominates its source): what
+// is reached "in the same iteration".
+func blockReachesForward(from *ssa.BasicBlock, pred func(ssa.Instruction) bool) bool {
+	seen := map[*ssa.BasicBlock]bool{}
+	stack := []*ssa.BasicBlock{from}
+	for len(stack) > 0 {
+		b := stack[len(stack)-1]
+		stack = stack[:len(stack)-1]
+		if seen[b] {
+			continue
+		}
+		seen[b] = true
+		for _, ins := range b.Instrs {
+			if pred(ins) {
+				return true
+			}
+		}
+		if noReturnBlock(b) {
+			continue
+		}
+		for _, s := range b.Succs {
+			if s.Dominates(b) {
+				continue
+			}
+			stack = append(stack, s)
+		}
+	}
+	return false
+}
+
 func blockReaches(from *ssa.BasicBlock, pred func(ssa.Instruction) bool) bool {
 	seen := map[*ssa.BasicBlock]bool{}
 	stack := []*ssa.BasicBlock{from}
